@@ -31,6 +31,8 @@ func symIntr(name string) byte {
 		return 2
 	case strings.HasPrefix(name, "IRQ pending"):
 		return 3
+	case strings.HasPrefix(name, "TriggerIRQ()"):
+		return 4 // raised through the interpreter's own TriggerIRQ (which looks at the I flag)
 	}
 	return 0
 }
@@ -86,6 +88,7 @@ func progAlphabetInt() []progSym {
 	return append(s,
 		progSym{"NMI pending; NOP", fixed(0xEA)},
 		progSym{"IRQ pending; NOP", fixed(0xEA)},
+		progSym{"TriggerIRQ(); NOP", fixed(0xEA)},
 		progSym{"CLI", fixed(0x58)})
 }
 
@@ -126,7 +129,11 @@ type progEnv struct {
 	x      *cpuCtx
 	syms   []progSym
 	useRef bool
-	cur    [2]cpuh.Raw
+	// ownPC: each interpreter gets the next instruction planted at ITS OWN program counter in its own
+	// memory (for oracles that judge each interpreter by itself, C12): an interpreter whose registers
+	// went astray earlier -- some other property's business -- still executes the path's instructions.
+	ownPC bool
+	cur   [2]cpuh.Raw
 	ref    ref65816.State
 	path   []int
 	seed   int
@@ -186,9 +193,13 @@ func (e *progEnv) exec(si int) *progStepResult {
 	res.bytes = e.syms[si].gen(p)
 	res.at = uint32(k)<<16 | uint32(pc)
 	mems := [3]*cpuh.Mem{e.x.ms[0].Mem(), e.x.ms[1].Mem(), &e.x.ref}
-	for _, m := range mems {
+	for mi, m := range mems {
+		mk, mpc := k, pc
+		if e.ownPC && mi < 2 {
+			mk, mpc = e.cur[mi].RK, e.cur[mi].PC
+		}
 		for i, b := range res.bytes {
-			m.Set(uint32(k)<<16|uint32(pc+uint16(i)), b)
+			m.Set(uint32(mk)<<16|uint32(mpc+uint16(i)), b)
 		}
 		m.ClearLog()
 	}
@@ -196,10 +207,14 @@ func (e *progEnv) exec(si int) *progStepResult {
 	for i := 0; i < 2; i++ {
 		m := e.x.ms[i]
 		pre := e.cur[i]
-		if in := symIntr(e.syms[si].name); in != 0 {
+		in := symIntr(e.syms[si].name)
+		if in == 2 || in == 3 {
 			pre.Interrupt = in
 		}
 		m.Load(pre)
+		if in == 4 {
+			m.TriggerIRQ()
+		}
 		cy, st, pn := m.Step()
 		res.post[i] = implResult{m.Save(), cy, st, pn}
 		e.cur[i] = res.post[i].raw
@@ -261,11 +276,24 @@ type progPath struct {
 	Syms    []string `json:"instructions"`
 }
 
+type progOpt int
+
+const progOwnPC progOpt = 1
+
+func hasProgOpt(opts []progOpt, o progOpt) bool {
+	for _, x := range opts {
+		if x == o {
+			return true
+		}
+	}
+	return false
+}
+
 type progVisit func(e *progEnv, res *progStepResult) (descend bool)
 
 // progSearch runs the DFS to the given depth from every seed state, sharded over workers by
 // (seed, first symbol, second symbol). Returns distinct states and transitions executed.
-func progSearch(depth int, seeds []progSeed, syms []progSym, useRef bool, memSeed uint32, visit progVisit) (states, transitions int64) {
+func progSearch(depth int, seeds []progSeed, syms []progSym, useRef bool, memSeed uint32, visit progVisit, opts ...progOpt) (states, transitions int64) {
 	type job struct{ seed, s1, s2 int }
 	var jobs []job
 	for sd := range seeds {
@@ -298,7 +326,7 @@ func progSearch(depth int, seeds []progSeed, syms []progSym, useRef bool, memSee
 	var trans int64
 	par.For(len(jobs), func(w, ji int) {
 		if envs[w] == nil {
-			envs[w] = &progEnv{x: newCPUCtx(), syms: syms, useRef: useRef}
+			envs[w] = &progEnv{x: newCPUCtx(), syms: syms, useRef: useRef, ownPC: hasProgOpt(opts, progOwnPC)}
 		}
 		e := envs[w]
 		j := jobs[ji]
@@ -367,11 +395,11 @@ func progVisitOf(r *report.Run, memSeed uint32, o progOracle) progVisit {
 
 // progReplay re-executes a recorded path and returns the oracle's verdict on its last step
 // (or on the first violating step).
-func progReplay(p progPath, seeds []progSeed, syms []progSym, useRef bool, o progOracle) (string, error) {
+func progReplay(p progPath, seeds []progSeed, syms []progSym, useRef bool, o progOracle, opts ...progOpt) (string, error) {
 	if p.Seed < 0 || p.Seed >= len(seeds) {
 		return "", fmt.Errorf("bad seed state %d", p.Seed)
 	}
-	e := &progEnv{x: newCPUCtx(), syms: syms, useRef: useRef}
+	e := &progEnv{x: newCPUCtx(), syms: syms, useRef: useRef, ownPC: hasProgOpt(opts, progOwnPC)}
 	e.reset(p.Seed, seeds[p.Seed], p.MemSeed)
 	last := "empty path"
 	for _, name := range p.Syms {
